@@ -3,7 +3,7 @@
 
 tools_seeded.py add <src-dir> <seed-id> <prop> [--skip-tests]   verify demo/tests in a scratch worktree, store under seeded/<seed-id>/, run the quick check
 tools_seeded.py run <seed-id> [<prop> ...] [--tier quick]        re-run check(s) against a stored seed (default: its own property)
-tools_seeded.py runall [--jobs N]                               run every stored seed against its property, update seeded/RESULTS.json
+tools_seeded.py runall [--jobs N] [--only C01,C02-s]               run every stored seed (or those with the id prefixes) against its property, update seeded/RESULTS.json
 
 Everything happens in scratch worktrees under /tmp (removed afterwards); /repo is never modified.
 """
@@ -129,6 +129,12 @@ if __name__ == '__main__':
         from concurrent.futures import ThreadPoolExecutor
         jobs = int(a[a.index('--jobs') + 1]) if '--jobs' in a else 3
         sids = [s for s in sorted(os.listdir(os.path.join(ROOT, 'seeded'))) if os.path.isdir(os.path.join(ROOT, 'seeded', s))]
+        prev = {}
+        if '--only' in a:      # re-run a subset (comma-separated id prefixes), keep the other results
+            pre = tuple(a[a.index('--only') + 1].split(','))
+            rp = os.path.join(ROOT, 'seeded', 'RESULTS.json')
+            prev = json.load(open(rp)) if os.path.exists(rp) else {}
+            sids = [s for s in sids if s.startswith(pre)]
         def one(sid):
             try:
                 return sid, cmd_run(sid, [])
@@ -136,7 +142,7 @@ if __name__ == '__main__':
                 print(sid, 'ERROR', str(e)[:200])
                 return sid, {'error': str(e)[:300]}
         with ThreadPoolExecutor(jobs) as ex:
-            out = dict(ex.map(one, sids))
+            out = dict(prev, **dict(ex.map(one, sids)))
         json.dump(out, open(os.path.join(ROOT, 'seeded', 'RESULTS.json'), 'w'), indent=1)
         bad = [s for s, r in out.items() if 'error' in r]
         missed = [s for s, r in out.items() if 'error' not in r and all(v.get('exit') != 1 for v in r.values())]
